@@ -373,6 +373,15 @@ func returnedValue(r *ssa.Return, i int) ssa.Value {
 			}
 		}
 		if last != nil {
+			// a deferred closure that assigns the result variable (`defer func() { err = f.Close() }()`) runs between the
+			// store and the return: what is returned is whatever the variable holds then
+			if al, isAl := u.X.(*ssa.Alloc); isAl {
+				for _, st := range cellStores(al) {
+					if st.Parent() != r.Parent() {
+						return v
+					}
+				}
+			}
 			// `err = f(); return err` on a named result stores the variable to itself: follow to the value assigned
 			for i := 0; i < 4; i++ {
 				nv := reachingDef(last)
